@@ -112,12 +112,14 @@ def gateset_gates(name: str) -> list[Any]:
     return [t[g] for g in _GS[name]]
 
 
-def check_gate_tables() -> None:
+def check_gate_tables(vendor: bool = True) -> None:
     """The names above must denote the same sets as gen.GATE_SETS and the
     vendor models of bqskit.ext (guards against the table drifting)."""
     from vlib import gen
     for k, gs in gen.GATE_SETS.items():
         assert set(gs) == set(gateset_gates(k)), k
+    if not vendor:
+        return
     from bqskit.ext import Aspen11Model, ANKAA9Q3Model, H1_1Model
     assert set(Aspen11Model.gate_set) == set(gateset_gates('rigetti'))
     assert set(ANKAA9Q3Model.gate_set) == set(gateset_gates('ankaa'))
@@ -482,7 +484,7 @@ def exc_info(e: BaseException) -> dict[str, Any]:
         site = tb_sites[-1]
         frames = [
             x for x in tb_sites
-            if not x.startswith(('worker.py:', 'task.py:'))
+            if not x.startswith(('worker.py:', 'task.py:', 'mon_pass.py:'))
         ][-12:]
         for ln in lines[last_file + 1:]:
             if ln and not ln.startswith(' '):
@@ -492,6 +494,8 @@ def exc_info(e: BaseException) -> dict[str, Any]:
                     inner_msg = rest.strip()[:300]
                 break
     return {
+        'worker_traceback': bool(tb_sites),
+        'chain': ['%s: %s' % (type(c).__name__, str(c).strip().splitlines()[-1][:120] if str(c).strip() else '') for c in chain],
         'exc': inner_exc, 'outer_exc': type(e).__name__, 'msg': inner_msg,
         'site': site, 'frames': frames,
     }
@@ -710,7 +714,7 @@ def run_case(case: dict[str, Any]) -> dict[str, Any]:
     t0 = time.monotonic()
     inp = case['input']
     cfg = case['config']
-    check_gate_tables()
+    check_gate_tables(vendor=False)
     bq_in = build_input(inp)
     bq_model = build_model(case['model'])
     logdir = os.environ.get('VERIF_LOGDIR')
@@ -820,7 +824,9 @@ def _kill_group(p: subprocess.Popen) -> None:  # type: ignore
         pass
 
 
-def exec_case(case: dict[str, Any], timeout: float, hashseed: int = 0) -> dict[str, Any]:
+def exec_case(
+    case: dict[str, Any], timeout: float, hashseed: int = 0, _retry: bool = True,
+) -> dict[str, Any]:
     """Run one case in its own process group with a watchdog."""
     logdir = tempfile.mkdtemp(prefix='comp-log-', dir='/tmp')
     env = dict(os.environ)
@@ -857,6 +863,21 @@ def exec_case(case: dict[str, Any], timeout: float, hashseed: int = 0) -> dict[s
                     res = json.loads(ln[len('@@RESULT@@'):])
                 except ValueError:
                     res = None
+        if (
+            res is not None and res.get('status') == 'raised' and _retry
+            and res.get('outer_exc') == 'RuntimeError'
+            and 'connection' in str(res.get('msg', '')).lower()
+            and not res.get('worker_traceback')
+            and str(res.get('site', '')).startswith('compiler.py')
+        ):
+            # the private server vanished without reporting a task error
+            # (killed from outside, port trouble): infrastructure, not a
+            # verdict. Try once more; a second loss is inconclusive.
+            again = exec_case(case, timeout, hashseed, _retry=False)
+            if again.get('status') == 'raised' and str(again.get('site', '')).startswith('compiler.py'):
+                again = {'status': 'connection_lost', 'chain': again.get('chain'), 'msg': again.get('msg')}
+            again['retried_after_connection_loss'] = True
+            return again
         if res is None:
             res = {
                 'status': 'harness_error', 'exc': 'no result line',
@@ -964,7 +985,7 @@ def judge_exception(pid: str, case: dict[str, Any], res: dict[str, Any]) -> list
     return [_wit(
         'raised:%s@%s' % (res.get('exc'), res.get('site')), case,
         exc=res.get('exc'), msg=res.get('msg'), site=res.get('site'),
-        frames=res.get('frames'), outer_exc=res.get('outer_exc'),
+        frames=res.get('frames'), outer_exc=res.get('outer_exc'), chain=res.get('chain'),
         input_kind=case['input']['kind'], level=case['config']['level'],
         radix=case['input'].get('radixes', [2])[0] if case['input']['kind'] != 'list' else None,
         expected='compile() accepts every input meeting its documented preconditions',
@@ -1373,6 +1394,7 @@ def drive(
     """Execute the cases, classify every outcome into the Run. `judge(case,
     res)` returns the witnesses of an 'ok' compilation; `on_ok(case, res)`
     lets the property record its own counters. Returns the raw results."""
+    check_gate_tables()
     only = os.environ.get('VERIF_CASES')
     if only:  # development aid: run a subset of the planned cases
         keep = {int(x) for x in only.split(',') if x.strip()}
@@ -1395,6 +1417,12 @@ def drive(
             run.count('case_timeout')
             timeouts_seen.append({'index': idx, 'timeout_s': timeouts[idx], 'case': short_case(case)})
             continue
+        if st == 'connection_lost':
+            run.count('case_connection_lost')
+            timeouts_seen.append({'index': idx, 'connection_lost': res.get('chain'), 'case': short_case(case)})
+            continue
+        if res.get('retried_after_connection_loss'):
+            run.count('case_retried_after_connection_loss')
         if st == 'harness_error':
             run.count('case_harness_error')
             run.inconclusive_because(
